@@ -217,6 +217,10 @@ func check(id, tier string) int {
 	sp := spec(id)
 	seed, _ := strconv.ParseInt(os.Getenv("VERIF_SEED"), 10, 64)
 	bd := filepath.Join(root, ".build", id)
+	if tier != "quick" {
+		// a build directory per tier: the quick and the thorough command of one property may run at the same time
+		bd += "-" + tier
+	}
 	os.RemoveAll(filepath.Join(bd, "out"))
 	os.RemoveAll(filepath.Join(bd, "tmp")) // worker scratch of earlier runs
 	os.MkdirAll(filepath.Join(bd, "out"), 0o755)
@@ -500,7 +504,7 @@ func replaySig(bin string, sp propSpec, id, rf string, k int, sig, alt string) b
 			os.Remove(f)
 		}
 	}()
-	bd := filepath.Join(root, ".build", id)
+	bd := filepath.Dir(bin)
 	env := append(goEnv(), "GOMAXPROCS=1", "VERIF_BUILD_DIR="+bd, "VERIF_RDPGW="+filepath.Join(bd, "rdpgw"), "VERIF_RDPGW_AUTH="+filepath.Join(bd, "rdpgw-auth"))
 	if sp.Race {
 		env = append(env, "GORACE=halt_on_error=0 exitcode=0 history_size=2 log_path="+fmt.Sprintf("%s.race%d", rf, k))
